@@ -454,7 +454,7 @@ func typeConverter(t dsl.Type, contextNamespace string, namedType *dsl.NamedType
 						simplfied = "False"
 					}
 					possibleTypes |= jsonTypes
-					options[i] = fmt.Sprintf("(%s.%s, %s, [%s])", classSyntax, formatting.ToPascalCase(c.Tag), typeConverter(c.Type, contextNamespace, namedType), strings.Join(jsonTypeStrings, ", "))
+					options[i] = fmt.Sprintf("(%s.%s, %s, [%s])", classSyntax, common.UnionCaseIdentifierName(c.Tag), typeConverter(c.Type, contextNamespace, namedType), strings.Join(jsonTypeStrings, ", "))
 				}
 			}
 
